@@ -234,6 +234,16 @@ def body_gamut(case):
                 g_ref = float(dreye.compute_gamut(X, metric=metric, seed=seed, relative_to=S[np.abs(S).sum(axis=1) > 0]))
         check(abs(g_ref - g_sup) <= 1e-9 * abs(g_ref), "gamut:dark-row-in-reference", f"a dark row in the reference changes the relative gamut: {g_ref} -> {g_sup}")
     if g_at is not None:
+        # the slice at a total: same gamut as the exact slice (rows on the plane + crossings of all below/above pairs) given directly
+        from props.c17_project import slice_candidates
+        Xs = X[np.abs(X).sum(axis=1) > 0] if zr == "none" else X
+        cand = slice_candidates(Xs, at)
+        with calling(f"compute_gamut(metric={metric}, at_l1 / exact slice)"):
+            with np.errstate(all="ignore"):
+                g_at_abs = float(dreye.compute_gamut(X, metric=metric, seed=seed, at_l1=at))
+                g_cand = float(dreye.compute_gamut(cand, metric=metric, seed=seed))
+        check(abs(g_at_abs - g_cand) <= 1e-6 * max(abs(g_cand), 1e-12), "gamut:at-l1-not-the-slice",
+              f"gamut at l1={at} is {g_at_abs}, the gamut of the exact slice of the hull at that total is {g_cand}")
         # The volume is "within the affine span": a slice of lower affine dimension than the reference's chromaticities is measured
         # in another unit (a length against an area) and the ratio is not bounded by 1 - only equal dimensions are compared.
         Sn = S[np.abs(S).sum(axis=1) > 0]
